@@ -154,7 +154,9 @@ _CERT_KEY = None
 
 
 def make_cert(common_names=('alice',), eku='client'):
-    """DER certificate. eku in {'client', 'server', None}; common_names a tuple of CNs."""
+    """DER certificate. eku in {'client', 'server', None} or a tuple of key purposes: 'client',
+    'server', 'any' or a dotted OID string; a leading '!' on the first entry marks the extension
+    critical. common_names a tuple of CNs."""
     global _CERT_KEY
     k = (tuple(common_names), eku)
     if k in _CERTS:
@@ -171,7 +173,14 @@ def make_cert(common_names=('alice',), eku='client'):
     b = x509.CertificateBuilder().subject_name(name).issuer_name(name).public_key(
         _CERT_KEY.public_key()).serial_number(1000 + len(_CERTS)).not_valid_before(
         datetime.datetime(2020, 1, 1)).not_valid_after(datetime.datetime(2040, 1, 1))
-    if eku == 'client':
+    if isinstance(eku, tuple):
+        critical = eku[0].startswith('!')
+        names = [e.lstrip('!') for e in eku]
+        known = {'client': ExtendedKeyUsageOID.CLIENT_AUTH, 'server': ExtendedKeyUsageOID.SERVER_AUTH,
+                 'any': x509.ObjectIdentifier('2.5.29.37.0')}
+        b = b.add_extension(x509.ExtendedKeyUsage(
+            [known.get(n) or x509.ObjectIdentifier(n) for n in names]), critical)
+    elif eku == 'client':
         b = b.add_extension(x509.ExtendedKeyUsage([ExtendedKeyUsageOID.CLIENT_AUTH]), False)
     elif eku == 'server':
         b = b.add_extension(x509.ExtendedKeyUsage([ExtendedKeyUsageOID.SERVER_AUTH]), False)
